@@ -396,7 +396,11 @@ def _save_body(ctx, col):
         ok, why = False, f"{len(mgr_calls)} calls of self.checkpoint_manager.save in save() (expected 1)"
     else:
         c = mgr_calls[0]
-        if not (c.args and isinstance(c.args[0], ast.Name) and c.args[0].id == step):
+        lab_ = c.args[0] if c.args else None
+        # int(step) / operator.index(step) of the integer counter is the counter
+        while isinstance(lab_, ast.Call) and len(lab_.args) == 1 and not lab_.keywords and ast.unparse(lab_.func) in ("int", "operator.index"):
+            lab_ = lab_.args[0]
+        if not (isinstance(lab_, ast.Name) and lab_.id == step):
             ok, why = False, f"checkpoint_manager.save is labelled `{ast.unparse(c.args[0]) if c.args else '?'}`, not save()'s own `{step}` argument"
         else:
             payload = None
